@@ -150,7 +150,7 @@ def run(chk, replay=None):
     chk.assume("TLC/SANY", "projection of chain terms in vf/ampl.py", "sympy CG/WignerD numeric evaluation (numeric law only)",
                "a transition's chain is identified through the model component named by the library's name generator")
     real = ampl_run.REAL_THOROUGH if tier == "thorough" else ampl_run.REAL_QUICK
-    cases = ampl_run.build_cases(chk, n_synth=600 if tier == "thorough" else 70, configs=configs, real=real, which={"formula"}, budget_s=900 if tier == "thorough" else 40)
+    cases = ampl_run.build_cases(chk, n_synth=600 if tier == "thorough" else 45, configs=configs, real=real, which={"formula"}, budget_s=900 if tier == "thorough" else 40)
     for label, reaction, cfg, model, rec in cases:
         if model is None:
             chk.violation(f"formulate-raises:{rec['error'].split(':')[0]}", f"formulate() failed for {label} cfg={cfg}: {rec['error']}", {"label": label})
@@ -172,6 +172,30 @@ def run(chk, replay=None):
                       f"{clause} rejected for {label} cfg={byid[rid][2]}: {str(info)[:700]}", {"label": label, "cfg": byid[rid][2], "record": byid[rid][4]})
     for d in drifts:
         chk.spec_drift(f"{d[1]} ({byid[d[2]][0] if d[2] in byid else d[2]})")
+    # the assigned lineshape is part of the formula: every node of every chain carries the builder's
+    # expression on its own variables (tagged builders; Trace_Dynamics recomputes the expectation)
+    from . import c13
+
+    drecs, tid = [], 0
+    seen = set()
+    for label, reaction, cfg, model, rec in cases:
+        if model is None or cfg or id(reaction) in seen or len(reaction.transitions) > 60:
+            continue
+        seen.add(id(reaction))
+        try:
+            drecs += c13.all_assigned_records(reaction, tid)
+        except ampl.AmpProjectionError as ex:
+            chk.spec_drift(f"dynamics factor shape not understood ({label}): {ex}")
+            continue
+        tid += 1
+        if tid >= (60 if tier == "thorough" else 14):
+            break
+    tvd = trace.validate("Trace_Dynamics", drecs, timeout=1500)
+    chk.add_tlc("trace_lineshape_factors", tvd.res, traces=tid)
+    if tvd.stats.get("nodes-with-dynamics", 0) == 0:
+        raise Machinery("vacuous: no lineshape factor compared")
+    for clause, t, info in tvd.rejects:
+        chk.violation(f"lineshape-factor:{clause}", f"{clause}: {str(info)[:600]}", {"records": [r for r in drecs if r["tid"] == t and r["ev"] != "Start"]})
     worst, n = numeric_law(chk, cases, rng, 12 if tier == "thorough" else 4)
     chk.part("numeric_law", models=n, worst_rel=worst)
     # binding demonstration: flip one observed D index -> must be rejected
